@@ -1070,10 +1070,23 @@ func callBuiltin(caller *frame, callpos token.Pos, fn *ssa.Builtin, args []value
 
 	case "copy": // copy([]T, []T) int or copy([]byte, string) int
 		src := args[1]
-		if isStr(src) {
+		fromString := isStr(src)
+		if fromString {
 			src = strToBytes(src)
 		}
-		return copy(args[0].([]value), src.([]value))
+		dstv, srcv := args[0].([]value), src.([]value)
+		if i.race != nil {
+			n := len(dstv)
+			if len(srcv) < n {
+				n = len(srcv)
+			}
+			if fromString {
+				i.raceCopy(dstv, nil, n)
+			} else {
+				i.raceCopy(dstv, srcv, n)
+			}
+		}
+		return copy(dstv, srcv)
 
 	case "close": // close(chan T)
 		close(args[0].(chan value))
@@ -1735,7 +1748,11 @@ func (i *interpreter) appendValues(dst, src []value, tElt types.Type) []value {
 	}
 	newLen := len(dst) + len(src)
 	if newLen <= cap(dst) {
-		return append(dst, src...)
+		out := append(dst, src...)
+		if i.race != nil {
+			i.raceAppendInPlace(out, len(dst))
+		}
+		return out
 	}
 	oldCap := cap(dst)
 	newcap := oldCap
